@@ -92,7 +92,12 @@ Print Assumptions C18_order_free.
 
 (* the shared-state inventory of the source tree as it stands (Gen/SharedState.v is regenerated on every
    run): a new static, thread_local, lazily built table, Cell/Mutex/Atomic field or unsafe block
-   anywhere under src/ breaks this obligation *)
+   anywhere under src/ breaks this obligation, and so does a new READ OF AMBIENT PROCESS STATE in
+   non-test code (kinds AmbientFs / AmbientEnv / AmbientTime / AmbientProcess / AmbientRandom: std::fs,
+   Path methods that ask the file system, std::env, SystemTime/Instant, std::process, RandomState/rand;
+   HashIteration: iterating a std HashMap/HashSet on the parse path - a heuristic, see gen/gen_shared.py).
+   The tree as it stands has none of these: a result can depend on nothing but text, extensions,
+   converter and the fixed table. *)
 Theorem C18_inventory :
   SharedState.items = [
     ("aisle"%string, FieldCell);
